@@ -295,7 +295,30 @@ fn gen_doc(rng: &mut Rng, allow_nan: bool) -> Vec<u8> {
     out
 }
 
+/// `[ [[[ … 1 … ]]], 7 ]` with `k` levels of one-element arrays; truncated: the input ends inside the
+/// innermost header (stepping over the first element fails `k` levels down)
+fn deep_doc(k: usize, truncated: bool) -> Vec<u8> {
+    let mut d = vec![0x92u8];
+    d.extend(std::iter::repeat(0x91u8).take(k));
+    if !truncated {
+        d.push(0x01);
+        d.push(0x07);
+    }
+    d
+}
+
 fn gen_c01(rec: &mut Rec, rng: &mut Rng, cases: u64, malformed: bool) {
+    // deeply nested values that have to be stepped over (valid for C01, cut off for C08)
+    for &k in &[1usize, 64, 127, 128, 129, 300] {
+        rec.case(if malformed { "c08" } else { "c01" });
+        rec.bump("doc:deep");
+        rec.op(&format!("init {}", hex0(&deep_doc(k, malformed))));
+        rec.op("root");
+        rec.op("idx h0 1");
+        rec.op("idx h0 0");
+        rec.op("idx h0 1");
+        rec.op("len h0");
+    }
     for i in 0..cases {
         rec.case(if malformed { "c08" } else { "c01" });
         // a few interned names for iprop
@@ -580,6 +603,45 @@ fn gen_c11(rec: &mut Rec, rng: &mut Rng, scale: u64) {
                 rec.op("len n4000000000000000");
                 rec.op("len e3");
                 rec.op("a.len null");
+            }
+        }
+    }
+    // object keys around and beyond the inline-length limit, read through key-at-index at both levels
+    for &n in &[16382usize, 16383, 16384, 16385, 70000] {
+        for nested in [false, true] {
+            rec.case("c11key");
+            rec.bump("c11key");
+            let long: Vec<u8> = (0..n).map(|i| b'a' + (i % 26) as u8).collect();
+            let mut inner: Vec<u8> = vec![0x83, 0xa1, b'x', 0x01];
+            if n < 65536 {
+                inner.push(0xda);
+                inner.extend_from_slice(&(n as u16).to_be_bytes());
+            } else {
+                inner.push(0xdb);
+                inner.extend_from_slice(&(n as u32).to_be_bytes());
+            }
+            inner.extend_from_slice(&long);
+            inner.extend_from_slice(&[0x02, 0xa1, b'z', 0x03]);
+            let doc = if nested { mp::wrap_nested(&inner) } else { inner };
+            rec.op(&format!("init {}", hex0(&doc)));
+            let r = rec.op("root");
+            let t = if nested {
+                let root = r.split_whitespace().nth(1).unwrap_or("h0").to_string();
+                rec.op(&format!("idx {} 1", root))
+            } else {
+                r
+            };
+            if let Some(h) = t.split_whitespace().nth(1) {
+                for i in 0..4 {
+                    rec.op(&format!("a.key {} {}", h, i));
+                }
+                let k = rec.op(&format!("key {} 1", h));
+                if let Some(kh) = k.split_whitespace().nth(1) {
+                    rec.op(&format!("len {}", kh));
+                    rec.op(&format!("a.len {}", kh));
+                    rec.op(&format!("a.str {}", kh));
+                }
+                rec.op(&format!("prop {} {}", h, hex0(&long)));
             }
         }
     }
@@ -1544,6 +1606,21 @@ fn gen_invocations(rec: &mut Rec, rng: &mut Rng, cases: u64) {
                 } else {
                     pre.push(format!("idx h0 {}", n - 1));
                 }
+                pre.append(acts);
+                *acts = pre;
+            }
+        }
+        if rng.chance(1, 8) {
+            // earlier invocations whose reads fail deep inside a value that has to be stepped over, then a
+            // valid deeply nested input (anything that is budgeted per thread and not given back shows here)
+            let n = invs.len();
+            for (j, (doc, acts)) in invs.iter_mut().enumerate() {
+                if j + 1 < n {
+                    *doc = deep_doc(*rng.pick(&[40usize, 100, 127]), true);
+                } else {
+                    *doc = deep_doc(*rng.pick(&[30usize, 60, 100, 120]), false);
+                }
+                let mut pre = vec!["root".to_string(), "idx h0 1".to_string(), "idx h0 1".to_string()];
                 pre.append(acts);
                 *acts = pre;
             }
